@@ -371,6 +371,15 @@ def _smaller(t):
     return out
 
 
+SCOPE_LEGEND = {
+    '1': 'CTL formulas with <= 1 operator over {p,q,true,false} (144)', '2': 'CTL formulas with <= 2 operators (8964)',
+    'k3': 'k3 (every 37th CTL formula with exactly 3 operators over p,q)',
+    'rep': 'rep (2160 CTL formulas with a repeated quantified subformula)',
+    'nary': 'nary (3- and 4-ary and/or, also with duplicate operands)',
+    'twins': 'twins (280 formulas containing a formula together with its restricted-syntax rewriting)',
+    'ctx': 'ctx (117600 formulas: every context of <= 2 operators over {p,q,SLOT} with SLOT at least twice x every 1-operator CTL formula for SLOT)',
+    'ctx3': 'ctx3 (the same with contexts of <= 3 operators, 11.7 M formulas)'}
+
 def run(ctx):
     from hypothesis import strategies as hs
     ctx.rule = ('S(n) = every total Kripke structure with exactly n states over atoms {p,q} '
@@ -388,24 +397,12 @@ def run(ctx):
                   (4, 2, 20011), (5, 1, 4000037), (2, 'rep', 1), (3, 'rep', 23), (4, 'rep', 100003),
                   (2, 'nary', 1), (3, 'nary', 23), (4, 'nary', 100003),
                   (2, 'twins', 1), (3, 'twins', 7), (4, 'twins', 20011),
-                  (1, 'ctx/1', 1), (2, 'ctx/1', 1), (3, 'ctx/7', 397), (1, 'ctx3/23', 1), (2, 'ctx3/211', 5)]
-        ctx.scopes = ['S(1)+S(2) x CTL k<=2 (8964 formulas)', 'S(3) x CTL k<=1 (144 formulas)',
-                      'every 97th structure of S(3) x CTL k<=2',
-                      'every 211th structure of S(4) (61422 of 12.96 M) x CTL k<=1',
-                      'every 11th of S(3) and every 20011th of S(4) x k3 (every 37th CTL formula with exactly 3 operators over p,q)',
-                      'every 20011th of S(4) x CTL k<=2', 'every 4000037th of S(5) x CTL k<=1',
-                      'S(2), every 23rd of S(3), every 100003rd of S(4) x rep (2160 CTL formulas with a repeated quantified subformula) and x nary (3- and 4-ary and/or, also with duplicate operands) and x twins (280 formulas containing a formula together with its restricted-syntax rewriting)',
-                      'S(1)+S(2) x ctx (117600 formulas: every context of <= 2 operators over {p,q,SLOT} with SLOT at least twice x every 1-operator CTL formula for SLOT), every 397th of S(3) x every 7th of ctx; S(1) x every 23rd and every 5th of S(2) x every 211th of ctx3 (contexts of <= 3 operators, 11.7 M formulas)']
+                  (1, 'ctx/1', 1), (2, 'ctx/3', 1), (3, 'ctx/7', 397), (1, 'ctx3/23', 1), (2, 'ctx3/211', 5)]
     else:
         scopes = [(1, 2, 1), (2, 1, 1), (2, 2, 9), (3, 1, 8), (4, 1, 4001), (3, 'k3', 101), (4, 'k3', 400009),
                   (5, 1, 40000003), (2, 'rep', 6), (3, 'rep', 401), (2, 'nary', 6), (3, 'nary', 401), (2, 'twins', 2), (3, 'twins', 101), (4, 'twins', 400009),
                   (1, 'ctx/1', 1), (2, 'ctx/23', 9), (1, 'ctx3/1009', 1)]
-        ctx.scopes = ['S(1) x CTL k<=2', 'S(2) x CTL k<=1', 'every 9th of S(2) x CTL k<=2',
-                      'every 8th of S(3) x CTL k<=1', 'every 4001st of S(4) x CTL k<=1',
-                      'every 101st of S(3) and every 400009th of S(4) x k3 (every 37th CTL formula with exactly 3 operators over p,q)',
-                      'every 40000003rd of S(5) x CTL k<=1',
-                      'every 6th of S(2) and every 401st of S(3) x rep (2160 CTL formulas with a repeated quantified subformula) and x nary (3- and 4-ary and/or, also with duplicate operands) and x twins (280 formulas containing a formula together with its restricted-syntax rewriting)',
-                      'S(1) x ctx (117600 formulas: every context of <= 2 operators over {p,q,SLOT} with SLOT at least twice x every 1-operator CTL formula for SLOT), every 9th of S(2) x every 23rd of ctx, S(1) x every 1009th of ctx3 (contexts of <= 3 operators)']
+    ctx.scopes = core.describe_scopes(scopes, SCOPE_LEGEND)
     ctx.exhaustive = True
     ctx.assumptions = ['reference semantics vp/ref.py (R-CTL, cross-checked against R-STAR in '
                        'the random tier and on replay) is the trusted base']
